@@ -464,6 +464,7 @@ func (c *control) scanDirBlock(buf []byte, pos int, dirName string, open, close 
 				at = true
 			case open:
 				pos = c.scanDirBlock(buf, pos, dirName, open, close, colonOk) + 2
+				tilde = false
 			case close:
 				if at || (colon && !colonOk) {
 					c.invalidDir(buf, pos)
